@@ -63,6 +63,41 @@ func reasonOf(a *atom, msg string) string {
 	return msgClass(msg, 80)
 }
 
+// reasonCategory maps a generator / compiler message to a coarse, stable
+// category (the message itself goes to the replay file).
+func reasonCategory(stage, msg string) string {
+	m := strings.ToLower(msg)
+	has := func(xs ...string) bool {
+		for _, x := range xs {
+			if strings.Contains(m, x) {
+				return true
+			}
+		}
+		return false
+	}
+	switch {
+	case stage == "generate-panic":
+		return "generator-panics"
+	case stage == "parse-error":
+		return "idl-rejected"
+	case stage == "generate-error" && has("expected "):
+		return "output-not-go-syntax"
+	case stage == "generate-error":
+		return "generator-error"
+	case has("redeclared", "already declared", "duplicate method", "duplicate field", "repeated on left side", "duplicate case", "must have a unique", "no new variables"):
+		return "duplicate-declaration"
+	case has("undefined:", "undeclared name", "is not a type", "not declared", "has no field or method", "not exported"):
+		return "unresolved-identifier"
+	case has("not enough arguments", "too many arguments", "assignment mismatch", "too many return", "not enough return", "missing return"):
+		return "wrong-arity"
+	case has("cannot use", "mismatched types", "invalid operation", "cannot convert", "as value or type", "does not implement"):
+		return "type-mismatch"
+	case has("declared and not used", "imported and not used"):
+		return "unused"
+	}
+	return "other"
+}
+
 // hygiene classes name the category, not the particular identifier
 func classOf(a *atom) string {
 	if a.hygiene {
@@ -88,6 +123,8 @@ type checker struct {
 	work     string
 	overlay  string
 	findings map[string]*finding
+	raw      []rawFail
+	rejected []string
 	order    []string
 	mu       sync.Mutex
 }
@@ -105,24 +142,159 @@ func (c *checker) add(fp, what string, atomID string, replay map[string]interfac
 	f.atoms = append(f.atoms, atomID)
 }
 
+// rawFail is a failure of one atom before attribution.
+type rawFail struct {
+	a      *atom
+	phase  string // compile | method | signal | property
+	fail   string // reason category / failure kind
+	what   string
+	replay map[string]interface{}
+}
+
+func (r rawFail) key() string {
+	k := r.phase + "|" + r.fail
+	if r.phase == "compile" && len(r.a.actions) > 0 {
+		k += "|" + r.a.actions[0].kind
+	}
+	return k
+}
+
 // verdictAlone generates and type-checks one atom in a package of its own.
 func (c *checker) verdictAlone(a *atom) (ok bool) {
 	idlText := renderIDL("main", []*atom{a})
 	r := generate(idlText)
+	if r.failure == "parse-error" {
+		// not a program of the universe: the property quantifies over the
+		// packages the IDL parser accepts
+		c.mu.Lock()
+		c.rejected = append(c.rejected, a.class)
+		c.mu.Unlock()
+		return false
+	}
 	if r.failure != "" {
-		c.add(fmt.Sprintf("compile/%s:%s/%s", r.failure, reasonOf(a, r.msg), classOf(a)),
-			fmt.Sprintf("the generator fails on a package accepted by the IDL parser (%s): %s; class %s", r.failure, r.msg, a.class), a.id,
-			map[string]interface{}{"idl": idlText, "failure": r.failure, "message": r.msg, "class": a.class})
+		c.raw = append(c.raw, rawFail{a, "compile", reasonCategory(r.failure, r.msg),
+			fmt.Sprintf("the generator fails on a package accepted by the IDL parser (%s): %s; atom class %s", r.failure, r.msg, a.class),
+			map[string]interface{}{"idl": idlText, "failure": r.failure, "message": r.msg, "class": a.class}})
 		return false
 	}
 	errs := typeCheck(c.imp, map[string][]byte{"gen.go": r.src})
 	if len(errs) > 0 {
-		c.add(fmt.Sprintf("compile/type-error:%s/%s", reasonOf(a, errs[0]), classOf(a)),
-			fmt.Sprintf("the generated code does not compile: %s (%d errors); class %s", errs[0], len(errs), a.class), a.id,
-			map[string]interface{}{"idl": idlText, "failure": "type-error", "errors": errs, "class": a.class})
+		c.raw = append(c.raw, rawFail{a, "compile", reasonCategory("type-error", errs[0]),
+			fmt.Sprintf("the generated code does not compile: %s (%d errors); atom class %s", errs[0], len(errs), a.class),
+			map[string]interface{}{"idl": idlText, "failure": "type-error", "errors": errs, "class": a.class}})
 		return false
 	}
 	return true
+}
+
+func crashLike(fail string) bool {
+	return fail == "process-crash" || fail == "process-hang" || fail == "timeout" || strings.HasPrefix(fail, "panic")
+}
+
+// attribute gives every raw failure a class: a failing composite type is
+// blamed on its smallest failing components (a proper sub-expression, or a
+// member type of a struct, that fails the same way on its own), or on its
+// constructor when every type built with that constructor fails the same way;
+// otherwise on itself. Hygiene atoms keep their hygiene category.
+func attribute(raw []rawFail, atoms []*atom) []string {
+	failing := map[string]map[string]bool{} // key -> own class of failing type atoms
+	partsOf := map[string][]string{}
+	for _, a := range atoms {
+		if !a.hygiene {
+			partsOf[a.class] = a.parts
+		}
+	}
+	for _, r := range raw {
+		if r.a.hygiene {
+			continue
+		}
+		if failing[r.key()] == nil {
+			failing[r.key()] = map[string]bool{}
+		}
+		failing[r.key()][r.a.class] = true
+	}
+	// constructor rule
+	ctorAll := map[string]bool{} // key|ctor -> every atom of that constructor and kind fails
+	for key, set := range failing {
+		f := strings.Split(key, "|")
+		for _, ctor := range []string{"Vec", "Map", "Tuple"} {
+			n, bad := 0, 0
+			for _, a := range atoms {
+				if a.hygiene || a.ctor != ctor || len(a.actions) == 0 {
+					continue
+				}
+				kind := a.actions[0].kind
+				if (f[0] == "compile" && len(f) == 3 && f[2] != kind) || (f[0] != "compile" && f[0] != kind) {
+					continue
+				}
+				n++
+				if set[a.class] {
+					bad++
+				}
+			}
+			if n >= 3 && bad == n {
+				ctorAll[key+"|"+ctor] = true
+			}
+		}
+	}
+	out := make([]string, len(raw))
+	for i, r := range raw {
+		if r.a.hygiene {
+			out[i] = classOf(r.a)
+			continue
+		}
+		set := failing[r.key()]
+		if crashLike(r.fail) {
+			// a crash, hang or panic is blamed on a component that fails in any
+			// way in the same phase (e.g. a mis-encoded scalar that makes the
+			// peer read a garbage count)
+			set = map[string]bool{}
+			for k, v := range failing {
+				if strings.HasPrefix(k, r.phase+"|") {
+					for c := range v {
+						set[c] = true
+					}
+				}
+			}
+		}
+		var cands []string
+		for _, p := range r.a.parts {
+			if set[p] {
+				minimal := true
+				for _, q := range partsOf[p] {
+					if set[q] {
+						minimal = false
+					}
+				}
+				if minimal {
+					cands = append(cands, p)
+				}
+			}
+		}
+		// a blamed component that is itself blamed on its constructor
+		ctorOf := func(class string) string {
+			for _, c := range []string{"Vec", "Map", "Tuple"} {
+				if strings.HasPrefix(class, c+"<") {
+					return c
+				}
+			}
+			return ""
+		}
+		for j, p := range cands {
+			if c := ctorOf(p); c != "" && ctorAll[r.key()+"|"+c] {
+				cands[j] = c + "<*>"
+			}
+		}
+		switch {
+		case len(cands) > 0:
+			out[i] = strings.Join(uniqStr(cands), "+")
+		case r.a.ctor != "" && ctorAll[r.key()+"|"+r.a.ctor]:
+			out[i] = r.a.ctor + "<*>"
+		default:
+			out[i] = r.a.class
+		}
+	}
+	return out
 }
 
 // assemble generates a package from atoms; returns sources or the errors.
@@ -231,7 +403,10 @@ type runOut struct {
 func (c *checker) runDriver(bin, dir string, args []string, limit time.Duration) runOut {
 	var out runOut
 	sock := filepath.Join(dir, fmt.Sprintf("s%d.sock", time.Now().UnixNano()%1000000))
-	cmd := exec.Command(bin, append([]string{"-sock", sock}, args...)...)
+	// the generated decoders allocate from wire counts: a mis-encoded argument
+	// can ask for gigabytes, so the driver runs under an address-space cap
+	sh := fmt.Sprintf(`ulimit -v %d; exec "$0" "$@"`, 4194304)
+	cmd := exec.Command("sh", append([]string{"-c", sh, bin, "-sock", sock}, args...)...)
 	cmd.Dir = dir
 	var stderr bytes.Buffer
 	cmd.Stderr = &stderr
@@ -413,11 +588,11 @@ func main() {
 			}
 			if mas.stage == "glue" || mas.stage == "glue-type-error" {
 				// the check's own glue could not be built around the generated code
-				c.add(fmt.Sprintf("compile/%s:%s/%s", mas.stage, reason, strings.Join(uniqStr(classesOf(min)), "+")),
+				c.add(fmt.Sprintf("compile/%s:%s/%s", mas.stage, reasonCategory("type-error", reason), strings.Join(uniqStr(classesOf(min)), "+")),
 					fmt.Sprintf("atoms that compile alone cannot be driven together: %v (%s)", mas.errs, mas.stage), strings.Join(ids, "+"),
 					map[string]interface{}{"idl": mas.idl, "errors": mas.errs, "stage": mas.stage, "classes": classes})
 			} else {
-				c.add(fmt.Sprintf("compile/interplay-%s:%s/%s", mas.stage, reason, strings.Join(uniqStr(classesOf(min)), "+")),
+				c.add(fmt.Sprintf("compile/together:%s/%s", reasonCategory(mas.stage, strings.Join(mas.errs, " ")), strings.Join(uniqStr(classesOf(min)), "+")),
 					fmt.Sprintf("atoms that compile alone do not compile together: %v", mas.errs), strings.Join(ids, "+"),
 					map[string]interface{}{"idl": mas.idl, "errors": mas.errs, "stage": mas.stage, "classes": classes})
 			}
@@ -563,20 +738,19 @@ func main() {
 			observations = append(observations, obs{a, kind, name, key[:strings.Index(key, ".")], v, b})
 		}
 	}
-	// ---- 5. fingerprints: blame the smallest failing component
-	failingScalar := map[string]map[string]bool{}
-	isScalar := map[string]bool{}
-	for _, s := range scalars {
-		isScalar[s] = true
-	}
-	for _, o := range observations {
-		if isScalar[o.a.class] && !o.a.hygiene {
-			k := o.kind + "/" + o.v.Failure
-			if failingScalar[k] == nil {
-				failingScalar[k] = map[string]bool{}
-			}
-			failingScalar[k][o.a.class] = true
+	// ---- 5. attribution: blame the smallest failing component
+	for i := range observations {
+		o := &observations[i]
+		fail := o.v.Failure
+		if o.v.Failure == "panic" && o.v.Detail != "" {
+			fail += ":" + o.v.Detail
 		}
+		c.raw = append(c.raw, rawFail{a: o.a, phase: o.kind, fail: fail, what: o.v.What})
+	}
+	nCompile := len(c.raw) - len(observations)
+	classes := attribute(c.raw, atoms)
+	for i, r := range c.raw[:nCompile] {
+		c.add(fmt.Sprintf("compile/%s/%s", r.fail, classes[i]), r.what, r.a.id, r.replay)
 	}
 	type rfind struct {
 		fp   string
@@ -585,24 +759,9 @@ func main() {
 	}
 	rf := map[string]*rfind{}
 	var rorder []string
-	for _, o := range observations {
-		cls := classOf(o.a)
-		if !o.a.hygiene || len(o.a.leaves) > 0 {
-			var blamed []string
-			for _, l := range o.a.leaves {
-				if failingScalar[o.kind+"/"+o.v.Failure][l] {
-					blamed = append(blamed, l)
-				}
-			}
-			if len(blamed) > 0 {
-				cls = strings.Join(uniqStr(blamed), "+")
-			}
-		}
-		fail := o.v.Failure
-		if o.v.Detail != "" {
-			fail += ":" + o.v.Detail
-		}
-		fp := report.FPEscape(o.kind + "/" + fail + "/" + cls)
+	for i, o := range observations {
+		r := c.raw[nCompile+i]
+		fp := report.FPEscape(r.phase + "/" + r.fail + "/" + classes[nCompile+i])
 		if rf[fp] == nil {
 			rf[fp] = &rfind{fp: fp, what: o.v.What}
 			rorder = append(rorder, fp)
@@ -610,6 +769,15 @@ func main() {
 		rf[fp].obs = append(rf[fp].obs, o)
 	}
 	// ---- 6. confirm every run-time fingerprint 5 times on its first action
+	type unconf struct {
+		fp, key string
+		same    int
+		others  []string
+		a       *atom
+	}
+	var unconfirmed []unconf
+	var nondeterministic []string
+	confirmedAtoms := map[string]bool{}
 	sort.Strings(rorder)
 	for _, fp := range rorder {
 		f := rf[fp]
@@ -622,7 +790,7 @@ func main() {
 			hit := false
 			for _, res := range ro.results {
 				for _, v := range res.Violations {
-					if v.Failure == o.v.Failure && v.Detail == o.v.Detail {
+					if v.Failure == o.v.Failure && (v.Failure != "panic" || v.Detail == o.v.Detail) {
 						hit = true
 					} else {
 						others = append(others, v.Failure+":"+v.Detail)
@@ -637,9 +805,10 @@ func main() {
 			}
 		}
 		if same != 5 {
-			chk.EngineError("run-time fingerprint %s (action %s) reproduced %d/5 times (also seen: %v): not reported as a violation", fp, key, same, uniqStr(others))
+			unconfirmed = append(unconfirmed, unconf{fp, key, same, uniqStr(others), o.a})
 			continue
 		}
+		confirmedAtoms[o.a.id] = true
 		var acts, classes []string
 		for _, x := range f.obs {
 			acts = append(acts, x.kind+" "+x.idlName)
@@ -649,6 +818,17 @@ func main() {
 			o.a.id, map[string]interface{}{"idl": renderIDL("main", []*atom{o.a}), "action": key, "case": o.v.Case, "observed": o.v.What,
 				"actions_with_this_fingerprint": firstN(acts, 40), "classes": uniqStr(classes), "package_dir": o.b.dir})
 	}
+	for _, u := range unconfirmed {
+		// a crash that shows in some runs only (the bytes on the wire depend on
+		// Go's map iteration order) on an action that fails deterministically in
+		// another, confirmed way is another face of that failure
+		if crashLike(strings.Split(u.fp, "/")[1]) && confirmedAtoms[u.a.id] && len(u.others) > 0 {
+			nondeterministic = append(nondeterministic, fmt.Sprintf("%s on %s: %d/5 (otherwise %v)", u.fp, u.key, u.same, u.others))
+			continue
+		}
+		chk.EngineError("run-time fingerprint %s (action %s) reproduced %d/5 times (also seen: %v): not reported as a violation", u.fp, u.key, u.same, u.others)
+	}
+	os.RemoveAll(filepath.Join(root, "replays", "C05")) // stale replay files of earlier runs
 	for _, fp := range c.order {
 		f := c.findings[fp]
 		f.replay["atoms"] = firstN(f.atoms, 40)
@@ -660,24 +840,25 @@ func main() {
 	cov := map[string]interface{}{
 		"evaluations":         cases + total,
 		"distinct_nontrivial": len(drivenClasses),
-		"rule": "programs: atoms = {echo method, 1-parameter signal, property} x every type of the universe (all 13 scalars; Vec<s>, Map<str,s>, Map<k,int32> for every scalar / key type, tuples, structs, enum; thorough: containers of depth-1 types over {int32,str,bool,any,uint8}, nested structs), " +
+		"rule": "programs: atoms = {echo method, 1-parameter signal, property} x every type of the universe (all 13 scalars; Vec<s>, Map<str,s>, Map<k,int32> for every scalar / key type, tuples, structs, enum; thorough: Vec<t>, Map<str,t>, Map<int32,t> for every depth-1 container t over every scalar, tuples, structs, enum; nested tuples and structs), " +
 			"action kinds (methods of 0..3 parameters, void or not, signals of 0/2/3 parameters, 2-parameter property), identifier hygiene (Go keywords, predeclared names, the generator's own locals and imported package names as parameter names, reserved and keyword method names, struct member names, interface names) and pairs of colliding names. " +
 			"Each atom is generated and type-checked alone; the compiling ones are assembled (<=110 per package), compiled with go build and every action is driven with every boundary value (methods: argument tuples one position at a time + diagonal, every return value; signals: every payload through Signal<X> to Subscribe<X>; properties: Set/Get/On<X>Change/Subscribe for every value). " +
 			"evaluations = atoms given a verdict + value cases executed; distinct_nontrivial = distinct (action kind, type or hygiene class) pairs whose generated code compiled and was driven with at least one value case",
-		"samples":                    samples,
-		"exhaustive":                 exhaustive,
-		"atoms":                      total,
-		"atoms_failing_alone":        aloneFail,
-		"atoms_assembled":            len(passing),
-		"interplay_failures":         interplay,
-		"packages_built":             len(builts),
-		"actions_driven":             driven,
-		"value_cases":                cases,
-		"oracle_checks":              checks,
-		"types_in_universe":          len(typeUniverse(map[string]int{"quick": 1, "thorough": 2}[tier])),
-		"atoms_not_driven":           notDriven,
-		"generate_and_build_seconds": buildS,
-		"run_time_fingerprints":      rorder,
+		"samples":                      samples,
+		"exhaustive":                   exhaustive,
+		"atoms":                        total,
+		"atoms_failing_alone":          aloneFail - len(c.rejected),
+		"atoms_rejected_by_idl_parser": c.rejected,
+		"atoms_assembled":              len(passing),
+		"interplay_failures":           interplay,
+		"packages_built":               len(builts),
+		"actions_driven":               driven,
+		"value_cases":                  cases,
+		"oracle_checks":                checks,
+		"types_in_universe":            len(typeUniverse(map[string]int{"quick": 1, "thorough": 2}[tier])),
+		"atoms_not_driven":             notDriven,
+		"generate_and_build_seconds":   buildS,
+		"run_time_fingerprints":        rorder,
 	}
 	_ = start
 	finish(cov)
